@@ -34,7 +34,7 @@ pub fn check(cx: &Cx, rep: &mut Report) {
         }
         let graceful = !af.failed() && matches!(af.task_end, Some((_, _, "done"))) && matches!(af.t_final(), Some((_, Some(_))));
         let t_out = af.t_final().and_then(|t| t.1);
-        let joins: Vec<&crate::index::OpRec> = ix.ops.iter().filter(|o| o.tag == af.tag && matches!(o.op, OpK::Join | OpK::Consume) && o.executed()).collect();
+        let joins: Vec<&crate::index::OpRec> = ix.ops.iter().filter(|o| o.tag == af.tag && matches!(o.op, OpK::Join | OpK::JoinPark | OpK::Consume) && o.executed()).collect();
         let mut somes = 0;
         let mut earlier_taken = false; // a previous join (completed or cancelled) may have taken the handle
         for o in &joins {
@@ -88,6 +88,8 @@ pub fn check(cx: &Cx, rep: &mut Report) {
                     earlier_taken = true;
                 }
                 Some(Res::Cancelled) => earlier_taken = true,
+                // a parked join future may already have taken the task handle
+                Some(Res::Handle { .. }) if o.op == OpK::JoinPark => earlier_taken = true,
                 None => {
                     // R4: every join resolves once the actor has terminated
                     rep.premise("C17.R4.join_resolves");
